@@ -1,6 +1,7 @@
 import Anytree.Drv.Iter
 import Anytree.Drv.Forest
 import Anytree.Drv.Nav
+import Anytree.Drv.Walk
 /-!
 Line-protocol driver: one JSON case per input line, one JSON object per output line:
 `{"mirror": <what the model of the code computes>, "spec": <what the specification demands>}`
@@ -14,6 +15,8 @@ def dispatch (j : Json) : R (Json × Json) := do
   | "iter" => runIter j
   | "forest" => runForest j
   | "nav" => runNav j
+  | "walk" => runWalk j
+  | "search" => runSearch j
   | f => throw s!"unknown family {f}"
 
 def handle (line : String) : String :=
